@@ -24,6 +24,21 @@ SameRun(a, b, lax) ==
   /\ (a.status = b.status \/ lax)
   /\ (a.status = "ok" /\ b.status = "ok" => a.v = b.v /\ (lax \/ (a.pos = b.pos /\ SizesEq(a.sizes, b.sizes))))
 
+\* C04: for a fixed-size type len(T), sizeof(T) in an expression, bytes consumed and bytes dumped are one number
+SizeAgree(T, r, o) ==
+  LET sz == SizeOf(T.type, T.mode) IN
+  IF sz = Dyn THEN T.obs.layout.size = Dyn /\ T.obs.sizeof = -1
+  ELSE /\ T.obs.layout.size = sz /\ T.obs.sizeof = sz
+       /\ (r.ok /\ o.status = "ok" => o.pos - T.start = sz)
+       /\ (r.ok /\ o.status = "ok" /\ o.dump.status = "ok" => Len(o.dump.b) = sz)
+
+\* C09: every call form x input kind is the same action as the reference run
+FormsAgree(forms, o) ==
+  \A i \in 1..Len(forms) :
+     LET f == forms[i] IN
+     /\ f.status = o.status
+     /\ (f.status = "ok" => f.v = o.v /\ SizesEq(f.sizes, o.sizes) /\ (f.pos = -1 \/ f.pos = o.pos))
+
 ParseClauses(T) ==
   LET r == Decode(T.type, T.mode, T.input, T.start, << >>, T.consts)
       o == T.obs.res
@@ -53,6 +68,8 @@ ParseClauses(T) ==
        \cup (IF Has(T.obs, "res2") /\ ~SameRun(o, T.obs.res2, lax \/ ~r.ok) THEN {"equiv"} ELSE {})
        \cup (IF Has(T.obs, "res2") /\ ~r.ok /\ o.status = "ok" /\ T.obs.res2.status = "ok" /\ o.v # T.obs.res2.v THEN {"equiv"} ELSE {})
        \cup (IF Has(T.obs, "layout2") /\ T.obs.layout2 # T.obs.layout THEN {"equiv-layout"} ELSE {})
+       \cup (IF Has(T.obs, "sizeof") /\ ~SizeAgree(T, r, o) THEN {"sizeagree"} ELSE {})
+       \cup (IF Has(T.obs, "forms") /\ ~FormsAgree(T.obs.forms, o) THEN {"forms"} ELSE {})
        \cup (IF Has(T.obs, "compiled") /\ T.obs.compiled # Compilable(T.type) THEN {"compilable"} ELSE {})
 
 \* a directly constructed value: dump, re-parse, refusal of numbers that do not fit
